@@ -178,8 +178,22 @@ def random_calibration(rng):
     return [pin, conv(mina), conv(maxa), conv(minp), conv(maxp)], (mina, maxa, minp, maxp)
 
 
-def random_case(rng, thorough):
-    if rng.random() < (0.5 if thorough else 0.3):
+# calibrations whose bounds are binary64 values that are NOT short dyadic numbers (the exact value of the float is
+# sent to the model; the float arithmetic of the two maps then differs from the rational one in the last ulp)
+DECIMAL_CALIBS = [(Fr(0.1), Fr(179.9), Fr(544.5), Fr(2400.3)), (Fr(-33.3), Fr(66.6), Fr(1 / 3), Fr(1000.7)),
+                  (Fr(0), Fr(180), Fr(0.7), Fr(0.9))]
+
+
+def as_float_value(q):
+    """the binary64 nearest to q, as an exact Fraction"""
+    return Fr(q.numerator / q.denominator)
+
+
+def random_case(rng, thorough, decimal=False):
+    if decimal:
+        mina, maxa, minp, maxp = rng.choice(DECIMAL_CALIBS)
+        ctor = [ABSENT, mina, maxa, minp, maxp]
+    elif rng.random() < (0.5 if thorough else 0.3):
         ctor, (mina, maxa, minp, maxp) = random_calibration(rng)
     else:
         ctor, (mina, maxa, minp, maxp) = CALIBS[rng.choice(list(CALIBS))]
@@ -197,6 +211,8 @@ def random_case(rng, thorough):
                 v = rng.choice([lo, hi, lo + EPS, hi - EPS, as_int_if_whole(lo), as_int_if_whole(hi)])
             else:
                 v = rng.choice([lo - EPS, hi + EPS, lo - 1, hi + 1000, None, True, False, lo - Fr(1, 1 << 30), hi + Fr(1, 1 << 30)])
+            if decimal and isinstance(v, Fr):
+                v = as_float_value(v)
             ops.append((name, v))
         else:
             ops.append((rng.choice(["read", "read_us"]),))
@@ -227,6 +243,8 @@ def generate(ctx):
                         cases.append(("triples", ("servo", ctor, [a, b, c])))
     for _ in range(8000 if thorough else 700):
         cases.append(("random", random_case(rng, thorough)))
+    for _ in range(3000 if thorough else 300):
+        cases.append(("random-decimal", random_case(rng, thorough, decimal=True)))
     return cases
 
 
@@ -242,6 +260,27 @@ def specials_cases():
                 cases.append(("servo", ctor, pre + [("write", v), ("read",)]))
                 cases.append(("servo", ctor, pre + [("write_us", v), ("read_us",)]))
     return cases
+
+
+def x_stream(ctx, st):
+    """Host/ActuatorsX.v servo_bounds_accepted vs the real constructor on bounds that may be IEEE specials
+    (correspondence only: this stream contains the witnesses of F-C19-servo-nonfinite-bound)"""
+    vals = [NAN, INF, -INF, Fr(0), Fr(180), Fr(544), Fr(2400), Fr(-90)]
+    combos = [(a, b, c, d) for a in vals for b in vals for c in vals for d in vals]
+    cases = [("servo", [ABSENT, a, b, c, d], []) for a, b, c, d in combos]
+    impl = S.run_impl("servo", cases)
+    if not ctx.exes.get(UNIT):
+        return 0
+    model = ctx.model([[1] + [S.WX(v) for v in combo] for combo in combos], unit=UNIT)
+    n_dis = 0
+    for case, m, r in zip(cases, model, impl):
+        want = "ok" if m == [1] else "ValueError" if m == [0] else "?"
+        got = "ok" if r["ctor"][0] == "ok" else r["ctor"][1]
+        st.bump(st.ctor, "servo-specials:" + got)
+        if want != got and n_dis < 5:
+            n_dis += 1
+            ctx.disagree("servo: constructor bound checks on floats with IEEE specials", S.replayable(case), want, got)
+    return len(cases)
 
 
 # --------------------------------------------------------------------------
@@ -260,6 +299,7 @@ def replay_findings(ctx):
 
 def run_unit(ctx: C.Ctx) -> dict:
     st = S.Stats()
+    n_fail0 = len(ctx.failures)
     stream_cases = generate(ctx)
     cases = [c for _, c in stream_cases]
     for s, _ in stream_cases:
@@ -279,11 +319,15 @@ def run_unit(ctx: C.Ctx) -> dict:
     for case, r in zip(spec, S.run_impl("servo", spec, real_sleep=True)):
         n_spec += len(r["steps"])
         oracle(ctx, st, case, r, safety_only=True)
+    n_x = x_stream(ctx, st)
     replay_findings(ctx)
+    # report the shortest failing history of each class first (ctx.finish keeps the first per key)
+    ctx.failures[n_fail0:] = sorted(ctx.failures[n_fail0:], key=lambda f: len(f["case"]["calls"]))
 
     samples = [S.show_case(cases[i]) for i in (0, len(cases) // 3, len(cases) // 2, len(cases) - 1)]
     dist = S.distribution(st)
     dist["specials_stream_ops_implementation_only"] = n_spec
+    dist["constructor_calls_with_ieee_special_bounds_compared_with_model"] = n_x
     return {
         "unit": UNIT,
         "evaluations": st.steps,
@@ -291,14 +335,14 @@ def run_unit(ctx: C.Ctx) -> dict:
         "rule": ("Servo: constructor table (%d rejected, %d accepted with unusual types / narrow ranges, 3 calibrations) + exhaustive op pairs over the "
                  "boundary alphabet (min, max, mid, min-eps, max+eps, +-1 outside, int and float forms, bools, None; both write and write_us; getters) of each of "
                  "3 calibrations (default, negative angles, fractional) from 11 seed states%s + seeded random histories (3-15 ops; 70%% in range, 20%% boundary, "
-                 "10%% invalid; %s random dyadic calibrations). evaluations = method calls executed on the real objects and compared field by field with the "
+                 "10%% invalid; %s random dyadic calibrations; a second stream uses non-dyadic binary64 bounds and angles such as 0.1, 179.9, 1/3). evaluations = method calls executed on the real objects and compared field by field with the "
                  "model; distinct non-trivial = distinct (full state before, call) with a non-getter call that raised, changed state or emitted events."
                  % (len(BAD_CTORS), len(ODD_CTORS), " + triples over a reduced alphabet" if ctx.tier == "thorough" else "",
                     "50%" if ctx.tier == "thorough" else "30%")),
         "samples": samples,
         "distribution": dist,
-        "guard": ("arguments are ints, bools, None and dyadic floats (no NaN/inf); the listed finding F-C19-servo-nan-bound (a NaN calibration bound is "
-                  "accepted) lies outside: constructor arguments are never NaN in the generated streams"),
+        "guard": ("arguments are ints, bools, None and dyadic floats (no NaN/inf); the listed finding F-C19-servo-nonfinite-bound (a NaN / infinite calibration bound "
+                  "is accepted) lies outside: constructor arguments are never NaN in the generated streams"),
         "unmodelled": [
             "binary64 rounding: model floats are exact rationals; compared to 1e-9 relative (a one-ulp excursion of a servo bound under write_us is float rounding, tolerated)",
             "IEEE specials (NaN, inf), -0.0, strings and ints beyond the float range as arguments of write/write_us: sent to the implementation only, oracle = invariant + atomicity of failing calls",
